@@ -15,7 +15,7 @@ ASSUME = ['the list model is Python list itself', 'atomicity of a refused *multi
           '(either nothing or the accepted prefix)', 'grid[i] = non-dict with i out of range may raise TypeError or IndexError']
 
 
-def alphabet(rows=(0, 1), nondict=5, idx=(-1, 0, 1, 5)):
+def alphabet(rows=(0, 1), nondict=5, idx=(-1, 0, 1, 5), v3row=None):
     ops = []
     for r in list(rows) + [nondict]:
         ops.append(['append', r])
@@ -25,6 +25,10 @@ def alphabet(rows=(0, 1), nondict=5, idx=(-1, 0, 1, 5)):
             ops.append(['set', i, r])
     ops.append(['insert', 0, nondict])
     ops.append(['set', 0, nondict])
+    if v3row is not None:
+        # a row with a 3.0-only cell (only used on unversioned / 3.0 grids): the grid upgrades itself, slices must follow
+        ops.append(['append', v3row])
+        ops.append(['set', 0, v3row])
     ops.append(['set', 5, nondict])
     ops += [['extend', [rows[0], rows[1]]], ['extend', [rows[1]]], ['extend', [rows[1], nondict, rows[0]]], ['extend', []],
             ['iadd', [rows[0]]], ['iadd', [rows[1], rows[1]]]]
@@ -46,6 +50,28 @@ def exec_history(hszinc, hist, observe_every=False, version=None, counts=None):
     l = st.l
     for step, op in enumerate(hist):
         before = list(l)
+        # a row with a 3.0-only cell stored into a *derived* grid (slice) whose version is still pre-3.0: the slice was
+        # built with the parent's version as an explicit argument, so whether it refuses (C10) or accepts like a list is
+        # not judged here - the model follows whatever the grid did.
+        uses_v3 = (op[0] in ('append', 'remove') and op[1] == 8) or (op[0] in ('insert', 'set') and op[2] == 8) or \
+            (op[0] in ('extend', 'iadd') and 8 in op[1])
+        if uses_v3 and st.derived and str(st.g.version)[:1] in ('1', '2'):
+            probe = list(st.g)
+            got = G.real_apply(st, op)
+            if got == 'ValueError':
+                now = list(st.g)
+                l[:] = [r for r in now]          # prefix-or-nothing: follow the grid
+                continue
+            exp2, _, l2 = G.model_apply(list(l), op, st.pool)
+            if got is None and exp2 is None:
+                l = l2
+            elif got is not None and exp2 and got in exp2:
+                pass                                  # refused the way a list refuses (bad index, ...)
+            elif got is not None:
+                return ('raises:' + got, 'step %d %r raised %s' % (step, op, got), step, st)
+            else:
+                return ('accepted-refused', 'step %d %r must be refused (%s)' % (step, op, '/'.join(sorted(exp2))), step, st)
+            continue
         exp, alts, l = G.model_apply(l, op, st.pool)
         got = G.real_apply(st, op)
         if counts is not None:
@@ -117,7 +143,7 @@ def shards(tier, seed):
 def run_shard(spec, ctx):
     import hszinc
     if spec['part'] == 'dfs':
-        ops = alphabet()
+        ops = alphabet(v3row=8)
         i, n = spec['slice']
         first = [op for j, op in enumerate(ops) if j % n == i]
         for d in range(1, spec['depth'] + 1):
@@ -134,8 +160,10 @@ def run_shard(spec, ctx):
             alphabet(rows=(4, 6), idx=(0, 2)) + alphabet(rows=(7, 1), idx=(0,))
         for hno in range(spec['n']):
             ops = base if r.random() < 0.3 else wide
-            hist = [r.choice(ops) for _ in range(r.randint(1, spec['len']))]
             ver = r.choice([None, '2.0', '3.0'])
+            if ver != '2.0' and r.random() < 0.5:
+                ops = ops + [['append', 8], ['set', 0, 8], ['insert', 1, 8], ['extend', [8, 1]]] * 3
+            hist = [r.choice(ops) for _ in range(r.randint(1, spec['len']))]
             ctx.case(hist, ver, nontrivial=changes(hist))
             run_history(ctx, hszinc, hist, observe_every=True, version=ver)
             if hno == 0:
